@@ -144,8 +144,24 @@ def _pat_literals(p):
 
 
 def display_table(X):
-    """variant path -> emitted text, from the output grammar of Display for RustFieldType"""
+    """variant path -> emitted text of Display for RustFieldType: the text its `fmt` writes, evaluated for each unit variant (however the
+    body is arranged: one `match` of writes, a table of names followed by a write, ..); else read off the output grammar"""
     tab = {}
+    enum = next((e_ for e_ in X.F.lib.items["enums"] if e_["path"] == "model::field::RustFieldType"), None)
+    summ = og.CallExpander(X.F).display_summary("model::field::RustFieldType")
+    if enum is not None and summ is not None:
+        for v_ in enum["variants"]:
+            if v_["fields"]:
+                continue
+            path = f"{enum['path']}::{v_['name']}"
+            try:
+                txt = fde.Evaluator({("param", "self"): ("variant", path)}).ev(summ)
+            except fde.Undecided:
+                continue
+            if isinstance(txt, str):
+                tab[path] = txt
+        if tab:
+            return tab
     for ev in X.events.get(DISPLAY, []):
         if ev.kind != "emit":
             continue
